@@ -412,11 +412,11 @@ def Op.core (t : DT) (argTy : DT) (op : Op) (args : List Val) : Val × Bool :=
     | _ => (.err, false)
   | .shl =>
     match args with
-    | [.i x, .i s] => if argTy.signed || s < 0 || x < 0 then (.err, false) else (.i (x * 2 ^ s.toNat), true)
+    | [.i x, .i s] => if argTy.signed || s < 0 || x < 0 then (.err, false) else (.i (if s.toNat ≥ t.bits then 0 else x * 2 ^ s.toNat), true)
     | _ => (.err, false)
   | .shr =>
     match args with
-    | [.i x, .i s] => if argTy.signed || s < 0 || x < 0 then (.err, false) else (.i (x / 2 ^ s.toNat), false)
+    | [.i x, .i s] => if argTy.signed || s < 0 || x < 0 then (.err, false) else (.i (if s.toNat ≥ t.bits then 0 else x / 2 ^ s.toNat), false)
     | _ => (.err, false)
   | .eq =>
     match args with
